@@ -69,7 +69,7 @@ def replay(prop, res, f, repo, index, outbase, gen, sp, max_n=3, timeout=240):
         return replay_codec(prop, res, f, repo, outbase, gen, timeout)
     if target.startswith('loadBinaryEdgeList_1_NoLabel_'):
         return replay_loader(prop, res, f, repo, index, outbase, gen, sp, target, timeout)
-    if target.startswith('getSubgraph_2_'):
+    if target.startswith('getSubgraph_2_') or target.startswith('findVertexPredecessors_2_'):
         return replay_free(prop, res, f, repo, index, outbase, gen, sp, target, max_n, timeout)
     info = classify(target)
     tent = index['functions'].get(target)
@@ -351,7 +351,7 @@ def replay_loader(prop, res, f, repo, index, outbase, gen, sp, target, timeout):
         '\n'.join(out.strip().split('\n')[-20:]).replace('*/', '* /'), src)
 
 
-FREE_CPP = {'getSubgraph': 'BaseGraph::algorithms::getSubgraph'}
+FREE_CPP = {'getSubgraph': 'BaseGraph::algorithms::getSubgraph', 'findVertexPredecessors': 'BaseGraph::algorithms::findVertexPredecessors'}
 
 
 def replay_free(prop, res, f, repo, index, outbase, gen, sp, target, max_n, timeout):
@@ -361,11 +361,19 @@ def replay_free(prop, res, f, repo, index, outbase, gen, sp, target, max_n, time
     if tent is None or tent.get('status') != 'ok' or target not in sp.contracts or tent['name'] not in FREE_CPP:
         return False, '// no native replay driver for %s\n' % target
     ret, name, params = split_params(tent['sig'])
-    if len(params) != 2 or not params[1][0].replace('const ', '').strip().startswith('bg_uset_u'):
+    if len(params) != 2:
         return False, '// no native replay rule for the signature of %s\n' % target
+    p2 = params[1][0].replace('const ', '').strip()
+    rt = ret.replace('const ', '').strip()
     ginfo = classify(params[0][0].replace('const ', '').strip()[len('struct '):].rstrip('* ').strip() + '__x')
-    rinfo = classify(ret.replace('const ', '').strip()[len('struct '):] + '__x')
-    if ginfo is None or rinfo is None:
+    if ginfo is None:
+        return False, '// no native replay rule for the signature of %s\n' % target
+    if p2 == 'VertexIndex' and rt == 'bg_preds':
+        return replay_free_vertex(prop, f, repo, outbase, gen, sp, target, tent, ginfo, params, max_n, timeout)
+    if not p2.startswith('bg_uset_u'):
+        return False, '// no native replay rule for the signature of %s\n' % target
+    rinfo = classify(rt[len('struct '):] + '__x')
+    if rinfo is None:
         return False, '// no native replay rule for the signature of %s\n' % target
     gname, sname = params[0][1], params[1][1]
     cl = f.get('clause')
@@ -429,6 +437,70 @@ def replay_free(prop, res, f, repo, index, outbase, gen, sp, target, max_n, time
     return found, header + '// result: %s\n/* output of the replay on the real code:\n%s\n*/\n%s' % (
         'FAILING INPUT FOUND (exit %d)' % code if found else 'no failing input among all graphs with <= %d vertices' % max_n,
         '\n'.join(out.strip().split('\n')[-20:]).replace('*/', '* /'), src)
+
+
+def replay_free_vertex(prop, f, repo, outbase, gen, sp, target, tent, ginfo, params, max_n, timeout):
+    """f(const Graph &graph, VertexIndex vertex) -> Predecessors: every small graph, every vertex 0..n+1 (two of
+    them out of range), every pair of observation points; the run is under ASan/UBSan/_GLIBCXX_DEBUG, so an
+    out-of-bounds access of the real code is itself a failing input"""
+    gname, vname = params[0][1], params[1][1]
+    cl = f.get('clause')
+    clauses = sp.contracts[target]
+    own = cl is not None and cl.get('fn') == target and cl.get('kind') == 'ensures'
+    oracle = [c for c in clauses if c.kind == 'ensures' and (c.src == cl['src'] if own else (c.enabled(prop) and '__CPROVER_is_fresh' not in c.expr))]
+    pre = [c for c in clauses if c.kind == 'requires' and c.enabled(prop)]
+    L = ['#include "native.hpp"', '#include "BaseGraph/algorithms/paths.hpp"', '#include "view.h"',
+         'typedef %s G;' % ginfo['graph'], 'typedef %s Abs;' % ginfo['abs'], 'typedef %s L;' % ginfo['cpplabel'],
+         '#define __CPROVER_is_fresh(p, n) 1', 'const bg_size BG_VERTEX_MAX = 4294967295ul; bg_size bg_ghost_scans; VertexIndex bg_scratch_u;',
+         'static const char *bg_failed = 0;',
+         'int main() {', '  long calls = 0; int rc = 0;', '  bg_install_handlers();',
+         '  enumerate_graphs<G, L>(%d, 1, %s, [&](const G &g0, const std::string &history) {' % (max_n, 'true' if ginfo['undirected'] else 'false'),
+         '    if (rc) return;', '    const int N = (int)g0.getSize();',
+         '    for (VertexIndex %s = 0; %s <= (VertexIndex)N + 1; ++%s)' % (vname, vname, vname),
+         '    for (VertexIndex p = 0; p <= (VertexIndex)N; ++p) for (VertexIndex q = 0; q <= (VertexIndex)N; ++q) {',
+         '      if (rc) continue;',
+         '      G_P = p; G_Q = q; bg_exc = 0; bg_scratch_row.valid = 0; bg_scratch_row.owner = 0; bg_cur_adj = 0; bg_ghost_frontier.a = 0; bg_ghost_scans = 0;',
+         '      Abs %s_abs; Cells<%s> %s_cells; alpha(g0, %s_abs, %s_cells); const Abs *%s = &%s_abs;' % (gname, ginfo['abslabel'], gname, gname, gname, gname, gname)]
+    for c in pre:
+        L.append('      if (!(%s)) continue; // requires %s' % (cpp_clause(c.expr, ginfo['label']), c.src))
+    L += ['      ++calls;',
+          '      snprintf(bg_last_input, sizeof bg_last_input, "%%s  then %s(g, %%u)  [G_P=%%u G_Q=%%u]", history.c_str(), %s, p, q);' % (tent['name'], vname),
+          '      bg_preds bg_ret; bg_ret.first = bg_vec_sz(); bg_ret.second = bg_vec_u();',
+          '      try { auto r = %s(g0, %s); bg_ret.first = abs_vec(r.first); bg_ret.second = abs_vecu(r.second); } BG_CATCH_ALL' % (FREE_CPP[tent['name']], vname)]
+    for c in oracle:
+        L.append('      if (!(%s)) bg_failed = "%s %s";' % (cpp_clause(c.expr, ginfo['label']), c.name, c.src))
+    L += ['      if (bg_failed) {',
+          '        printf("CLAUSE FALSE ON THE REAL CODE: %%s\\n  history: %%s\\n  call: %s(g, %%u)  observed at G_P=%%u G_Q=%%u  exception code after call=%%d\\n", bg_failed, history.c_str(), %s, p, q, bg_exc);' % (tent['name'], vname),
+          '        rc = 1;', '      }', '    }', '  });', '  printf("%ld calls replayed\\n", calls);', '  return rc;', '}']
+    src = '\n'.join(L) + '\n'
+    cpp, exe = outbase + '.cpp', outbase + '.bin'
+    open(cpp, 'w').write(src)
+    cmd = ['g++', '-std=c++14', '-O1', '-w', '-fno-access-control', '-DBG_L=%s' % ginfo['label'], '-I', os.path.join(repo, 'include'),
+           '-I', os.path.join(ROOT, 'shim'), '-I', gen, '-I', os.path.join(ROOT, 'contracts'), '-I', HERE,
+           '-fsanitize=address,undefined', '-fno-sanitize-recover=all', '-D_GLIBCXX_DEBUG', '-D_GLIBCXX_ASSERTIONS', '-g', cpp, '-o', exe]
+    r = subprocess.run(cmd, stdout=subprocess.PIPE, stderr=subprocess.STDOUT, text=True)
+    header = '// native replay of %s\n// build: %s\n' % (f.get('key'), ' '.join(cmd).replace(gen, '<gen: bin/extract --out DIR>'))
+    if r.returncode != 0:
+        try:
+            os.remove(cpp)
+        except OSError:
+            pass
+        return False, header + '// replay did not compile:\n' + ''.join('// ' + l + '\n' for l in r.stdout.split('\n')[-30:]) + src
+    try:
+        r = subprocess.run([exe], stdout=subprocess.PIPE, stderr=subprocess.STDOUT, text=True, timeout=timeout,
+                           env=dict(os.environ, ASAN_OPTIONS='detect_leaks=0:handle_segv=0:handle_abort=0:handle_sigbus=0'))
+        out, code = r.stdout, r.returncode
+    except subprocess.TimeoutExpired:
+        out, code = 'TIMEOUT', 0
+    for pth in (exe, cpp):
+        try:
+            os.remove(pth)
+        except OSError:
+            pass
+    found = code != 0
+    return found, header + '// result: %s\n/* output of the replay on the real code:\n%s\n*/\n%s' % (
+        'FAILING INPUT FOUND (exit %d)' % code if found else 'no failing input among all graphs with <= %d vertices' % max_n,
+        '\n'.join(out.strip().split('\n')[-24:]).replace('*/', '* /'), src)
 
 
 def cpp_clause(expr, label):
